@@ -466,6 +466,11 @@ def object_shapes(nm: Namer) -> Dict[str, Callable[[T, Ctx], Optional[T]]]:
         fb = dfield("b", INT, c)
         return Obj("dataclass", nm("O"), (fb,), bases=(base.name,), base_specs=(base,))
 
+    def inherit_slots(x, c):
+        # the inherited field lives in a slot of the base class, not in the instance __dict__
+        base = Obj("dataclass", nm("B"), (F("a", x),), slots=True)
+        return Obj("dataclass", nm("O"), (F("b", INT, default="0", has_default=True, default_value=0),), bases=(base.name,), base_specs=(base,))
+
     def inherit_post_init(x, c):
         # the derived class does not define __post_init__ itself: it inherits the one of its base
         base = Obj(
